@@ -1,1 +1,233 @@
-import AnyioModel.Kernel.Step
+/-
+C07  TaskGroup.start(): readiness handshake is exact and loses nothing.
+
+Property theorems only, on the kernel model; shape lemmas of `task_done` in
+`AnyioModel.Kernel.GroupInv6`, routing invariant `RInv` in `GroupInv7`.
+
+Proved here: the `started()` protocol (`C07_second_started`), what `task_done` does with the
+child's outcome depending on the state of the start future (`C07_early_exit_partial`,
+`C07_error_after_handshake_goes_to_group` which contains finding F2, `C07_caller_cancelled_f2`),
+and that `start()` returns normally only when resumed by a result (`C07_value_partial`).
+Not proved (see the final comment): that a start future is private to the handshake
+(`C07_start_future_private`) and the two statements that depend on it.
+-/
+import AnyioModel.Kernel.GroupInv7
+
+namespace AnyioModel.Kernel
+
+/-- `task_status.started()`: the first call resolves the start future; a second call (future has a
+result) or a call after the child's failure was delivered raises `RuntimeError` and changes
+nothing; if the caller of `start()` was cancelled in the meantime (future cancelled) the call is
+silently ignored. -/
+theorem C07_second_started {st st' : State} {o : Out} {t sf : Nat} (hr : st.running = some t)
+    (hsf : (st.tasks t).startFut = some sf) (hs : step st .started = some (st', o)) :
+    (st.futs sf = .pending → st' = resolveFut st sf .result ∧ o = .none) ∧
+    (st.futs sf = .result → st' = st ∧ o = .rterr) ∧
+    (∀ e, st.futs sf = .failed e → st' = st ∧ o = .rterr) ∧
+    (∀ a, st.futs sf = .cancelled a → st' = st ∧ o = .none) := by
+  unfold step at hs
+  simp only [hr] at hs
+  rw [hsf] at hs
+  refine ⟨fun h => ?_, fun h => ?_, fun e h => ?_, fun a h => ?_⟩ <;>
+    (simp only [h, Option.some.injEq, Prod.mk.injEq] at hs
+     exact ⟨hs.1.symm, hs.2.symm⟩)
+
+/-- the `task_done` transition is `runTaskDone` -/
+theorem C07_taskDone_step {st st' : State} {o : Out} {u : Nat}
+    (hs : step st (.run (.taskDone u)) = some (st', o)) :
+    runTaskDone { st with cur := st.cur.erase (.taskDone u) } u = some st' := by
+  simp only [step] at hs
+  split at hs
+  · contradiction
+  · split at hs
+    · rename_i st1 h
+      simp only [Option.some.injEq, Prod.mk.injEq] at hs
+      rw [h, hs.1]
+    · contradiction
+
+theorem resolveFut_other (st : State) {f f' : Nat} (v : FutSt) (h : f' ≠ f) :
+    (resolveFut st f v).futs f' = st.futs f' := by
+  unfold resolveFut
+  split
+  · rfl
+  · simp only []
+    split
+    · split <;> simp [h]
+    · simp [h]
+
+/-- Early exit: if the child ends while the start future is still pending (it never called
+`started()`), `task_done` hands its exception to the caller of `start()` -- `RuntimeError` if the
+child merely returned -- records nothing in the group and cancels no scope.
+
+Partial: the hypothesis `hoc` (the start future is not at the same time the group's
+`_on_completed_fut`) is a consequence of "library futures are used for one purpose"
+(`C07_start_future_private`), which is not proved. -/
+theorem C07_early_exit_partial {st st' : State} {u g sf : Nat} {o : Outcome}
+    (hg : (st.tasks u).group = some g) (ho : (st.tasks u).outcome = some o)
+    (hsf : (st.tasks u).startFut = some sf) (hp : st.futs sf = .pending)
+    (hoc : (st.groups g).onCompleted ≠ some sf)
+    (he : runTaskDone st u = some st') :
+    st'.futs sf = .failed (if o = .none then .one .runtimeError else o) ∧
+    (∀ s, (st'.scopes s).cancelCalled = (st.scopes s).cancelCalled) ∧
+    (∀ g', (st'.groups g').exceptions = (st.groups g').exceptions) := by
+  obtain ⟨g0, sc, o', hg', hsc, ho', ht⟩ := runTaskDone_shape he
+  rw [hg] at hg'; cases hg'
+  rw [ho] at ho'; cases ho'
+  rw [hsf] at ht
+  -- the state after the bookkeeping and the wake-up of the host
+  have hM : (taskDoneMid (taskDoneCore st u g sc) g).futs sf = .pending ∧
+      (∀ s, ((taskDoneMid (taskDoneCore st u g sc) g).scopes s).cancelCalled =
+        (st.scopes s).cancelCalled) ∧
+      (∀ g', ((taskDoneMid (taskDoneCore st u g sc) g).groups g').exceptions =
+        (st.groups g').exceptions) := by
+    have hc : ∀ s, ((taskDoneCore st u g sc).scopes s).cancelCalled = (st.scopes s).cancelCalled := by
+      intro s; unfold taskDoneCore
+      by_cases hs : s = sc
+      · subst hs; simp
+      · simp [hs]
+    have hx : ∀ g', ((taskDoneCore st u g sc).groups g').exceptions = (st.groups g').exceptions := by
+      intro g'; unfold taskDoneCore
+      by_cases hgg : g' = g
+      · subst hgg; simp
+      · simp [hgg]
+    have hoc' : ((taskDoneCore st u g sc).groups g).onCompleted ≠ some sf := by
+      unfold taskDoneCore; simpa using hoc
+    unfold taskDoneMid
+    split
+    · rename_i f hf
+      split
+      · have hne : sf ≠ f := by intro e; subst e; exact hoc' hf
+        refine ⟨by rw [resolveFut_other _ _ hne]; exact hp, fun s => ?_, fun g' => ?_⟩
+        · rw [((frame_resolveFut _ _ _).scopes s).cancelCalled]; exact hc s
+        · rw [(frame_resolveFut _ _ _).groups]; exact hx g'
+      · exact ⟨hp, hc, hx⟩
+    · exact ⟨hp, hc, hx⟩
+  generalize taskDoneMid (taskDoneCore st u g sc) g = M at ht hM
+  have hnd : (M.futs sf).done = false := by rw [hM.1]; rfl
+  have fin : ∀ v, st' = resolveFut M sf v → st'.futs sf = v ∧
+      (∀ s, (st'.scopes s).cancelCalled = (st.scopes s).cancelCalled) ∧
+      (∀ g', (st'.groups g').exceptions = (st.groups g').exceptions) := by
+    intro v e
+    subst e
+    refine ⟨resolveFut_self hnd, fun s => ?_, fun g' => ?_⟩
+    · rw [((frame_resolveFut _ _ _).scopes s).cancelCalled]; exact hM.2.1 s
+    · rw [(frame_resolveFut _ _ _).groups]; exact hM.2.2 g'
+  by_cases hon : o = .none
+  · subst hon
+    simp only [taskDoneTail, hnd, Bool.false_eq_true, if_false, Option.some.injEq] at ht
+    simpa using fin _ ht.symm
+  · rw [taskDoneTail_err M g u o (some sf) hon] at ht
+    simp only [taskDoneTailErr, hM.1, FutSt.isCancelled, FutSt.done, Bool.false_eq_true,
+      false_and, if_false, Option.some.injEq] at ht
+    simpa [hon] using fin _ ht.symm
+
+/-- `task_done` of a child whose start future is already done (result, or cancelled) and whose
+outcome is a non-cancellation exception appends the exception to the group. -/
+theorem C07_routed_of_done_future {st st' : State} {u g sf : Nat} {o : Outcome}
+    (hg : (st.tasks u).group = some g) (ho : (st.tasks u).outcome = some o) (hne : o ≠ .none)
+    (hnc : o.isCancelledError = false) (hsf : (st.tasks u).startFut = some sf)
+    (hd : (st.futs sf).done = true) (hlt : sf < st.nFuts)
+    (he : runTaskDone st u = some st') :
+    u ∈ (st'.groups g).routed ∧ ∃ l, List.Perm ((st'.groups g).exceptions) (l ++ o.leaves) := by
+  obtain ⟨g0, sc, o', hg', hsc, ho', ht⟩ := runTaskDone_shape he
+  rw [hg] at hg'; cases hg'
+  rw [ho] at ho'; cases ho'
+  rw [hsf] at ht
+  have lM := gle_taskDoneMid (taskDoneCore st u g sc) g
+  have hMf : (taskDoneMid (taskDoneCore st u g sc) g).futs sf = st.futs sf :=
+    lM.futs sf hlt hd
+  generalize taskDoneMid (taskDoneCore st u g sc) g = M at ht hMf
+  rcases taskDoneTail_shape ht with ⟨_, _, h3⟩ | ⟨_, _, _, hr⟩
+  · rcases h3 with h3 | h3 | ⟨sf', hs', hd', _⟩
+    · exact absurd h3 hne
+    · rw [hnc] at h3; contradiction
+    · cases hs'
+      rw [hMf, hd] at hd'; contradiction
+  · rcases hr with ⟨_, rfl⟩ | ⟨_, rfl⟩
+    · exact ⟨by simp [routeErr], (M.groups g).exceptions, by simp [routeErr]⟩
+    · have l := (gle_cancelScope (routeErr M g u o) (M.groups g).scope false).groups g
+      rw [l.routed, l.exceptions]
+      exact ⟨by simp [routeErr], (M.groups g).exceptions, by simp [routeErr]⟩
+
+/-- After the handshake is over -- the start future has a result (the child called `started()`,
+it is an ordinary member of the group from then on), or was cancelled because the caller of
+`start()` was cancelled (finding F2: the pinned AnyIO dropped the exception in this case) --
+a non-cancellation exception of the child is recorded in the group's `_exceptions`: in every
+reachable state, the `task_done` transition of such a child routes it. -/
+theorem C07_error_after_handshake_goes_to_group {st st' : State} {out : Out} {u g sf : Nat}
+    {o : Outcome} (h : Reach st) (hg : (st.tasks u).group = some g)
+    (ho : (st.tasks u).outcome = some o) (hne : o ≠ .none) (hnc : o.isCancelledError = false)
+    (hsf : (st.tasks u).startFut = some sf) (hd : (st.futs sf).done = true)
+    (hs : step st (.run (.taskDone u)) = some (st', out)) :
+    u ∈ (st'.groups g).routed ∧
+      ∃ l, List.Perm ((st'.groups g).exceptions) (l ++ o.leaves) :=
+  C07_routed_of_done_future (st := { st with cur := st.cur.erase (.taskDone u) }) hg ho hne hnc hsf
+    hd ((rinv_reach h).sf_lt u sf hsf) (C07_taskDone_step hs)
+
+/-- F2, spelled out: the caller of `start()` was cancelled (start future cancelled), the child
+raises a non-cancellation exception while unwinding: it ends up in the group. -/
+theorem C07_caller_cancelled_f2 {st st' : State} {out : Out} {u g sf : Nat} {a : Bool}
+    {o : Outcome} (h : Reach st) (hg : (st.tasks u).group = some g)
+    (ho : (st.tasks u).outcome = some o) (hne : o ≠ .none) (hnc : o.isCancelledError = false)
+    (hsf : (st.tasks u).startFut = some sf) (hc : st.futs sf = .cancelled a)
+    (hs : step st (.run (.taskDone u)) = some (st', out)) : u ∈ (st'.groups g).routed :=
+  (C07_error_after_handshake_goes_to_group h hg ho hne hnc hsf (by rw [hc]; rfl) hs).1
+
+/-- `start()` returns normally only if its wait on the start future was resumed with a result,
+never after an exception or a cancellation. -/
+theorem C07_value_partial {st st' : State} {t g u f : Nat} {r : Resume}
+    (hl : (st.tasks t).lib = .startWait g u f)
+    (he : continueLib st t r = some (st', .done .none)) : r = .none := by
+  unfold continueLib at he
+  split at he <;> rename_i hx <;> (try (rw [hl] at hx; cases hx))
+  split at he
+  · rfl
+  · rename_i hne
+    simp only [] at he
+    split at he
+    · contradiction
+    · split at he
+      · split at he
+        · contradiction
+        · split at he <;> simp at he
+      · simp only [Option.some.injEq, Prod.mk.injEq, Out.done.injEq] at he
+        exact absurd he.2 hne
+
+/-! ### non-vacuity -/
+
+/-- the child calls `started()`: `start()` returns normally, the child is a member of the group -/
+example : (traceFrom step init
+    [.mkGroup, .groupEnter 0, .start 0, .beginCycle 0, .run (.step 1), .started, .yield,
+     .beginCycle 0, .run (.wakeup 0)]).map
+    (fun p => (p.2.getLast?, p.1.futs 0, (p.1.groups 0).tasks)) =
+    some (some (.done .none), .result, [1]) := by decide
+
+/-- the child raises before `started()`: `start()` raises its exception, the group collects
+nothing and is not cancelled -/
+example : (traceFrom step init
+    [.mkGroup, .groupEnter 0, .start 0, .beginCycle 0, .run (.step 1), .finish (.one (.err 5)),
+     .beginCycle 0, .run (.taskDone 1), .beginCycle 0, .run (.wakeup 0)]).map
+    (fun p => (p.2.getLast?, p.1.futs 0, (p.1.groups 0).exceptions, (p.1.scopes 0).cancelCalled)) =
+    some (some (.done (.one (.err 5))), .failed (.one (.err 5)), [], false) := by decide
+
+/-- a second `started()` raises `RuntimeError` -/
+example : (traceFrom step init
+    [.mkGroup, .groupEnter 0, .start 0, .beginCycle 0, .run (.step 1), .started, .started]).map
+    (fun p => p.2.getLast?) = some (some .rterr) := by decide
+
+/-
+Not proved (statements of the plan):
+
+* `C07_start_future_private`: for every reachable state, if `(tasks u).startFut = some sf` then
+  `userFut sf = false`, `sf` is not the `_on_completed_fut` of a group, not in the `hwaiters` of a
+  task, no `sleepDone sf` handle is scheduled, and `startFut` is injective; consequently the only
+  transition that gives `sf` a result is `.started` by `u`, `.failed` only `task_done` of `u`,
+  `.cancelled` only a cancellation of the caller blocked on it.  This is a "fresh allocation"
+  invariant over all future-valued fields (`GLe` would have to bound `userFut` above `nFuts`); the
+  hypothesis `hoc` of `C07_early_exit_partial` is the one instance of it used above.
+* `C07_value` in full ("`.done .none` only if the child executed `.started`") and the first half
+  of `C07_caller_cancelled` ("from `startJoin`, `.done` with resume `.none` only if
+  `finished u`") follow from it together with `C07_value_partial`.
+-/
+
+end AnyioModel.Kernel
